@@ -531,9 +531,6 @@ bool Annotator::AnnotatorImpl::exists(const std::string &id, size_t index, bool 
     }
 
     auto count = mAnnotator->itemCount(id);
-    if (count == 1) {
-        return true;
-    }
     if (unique && count > 1) {
         addIssueNonUnique(id);
         return false;
